@@ -803,7 +803,11 @@ func (self *AofChannel) Push(dbId uint8, lock *Lock, commandType uint8, lockComm
 		aofLock.Count = unLockCommand.Count
 		aofLock.Rcount = unLockCommand.Rcount
 	}
-	if lockCommand.TimeoutFlag&protocol.TIMEOUT_FLAG_REQUIRE_ACKED != 0 && (commandType != protocol.COMMAND_LOCK || lock.locked > 0) {
+	// a LOCK record enters the acknowledgement bookkeeping only while its hold is awaiting the
+	// acknowledgement: the command keeps the require-ack flag for the hold's whole life, and records
+	// written for the hold at other moments (its delayed persistence, a move between expiry tables
+	// during an update) must neither register under the request's id nor be failed in its place
+	if lockCommand.TimeoutFlag&protocol.TIMEOUT_FLAG_REQUIRE_ACKED != 0 && (commandType != protocol.COMMAND_LOCK || (lock.locked > 0 && lock.ackCount != 0xff)) {
 		aofLock.AofFlag |= AOF_FLAG_REQUIRE_ACKED
 		aofLock.lock = lock
 	} else {
